@@ -18,6 +18,10 @@ type IndividualNode struct {
 	// cacheMutex guards the lazily filled fields above when they are read by
 	// several goroutines at once (see IndividualNodes.Compare).
 	cacheMutex sync.Mutex
+
+	// cacheEpoch is the edit epoch (see nodesChanged) the fields above were
+	// filled in.
+	cacheEpoch uint64
 }
 
 // SpouseChildren connects a single spouse to a set of children. The children
@@ -33,7 +37,7 @@ type SpouseChildren map[*IndividualNode]ChildNodes
 func newIndividualNode(document *Document, pointer string, children ...Node) *IndividualNode {
 	return &IndividualNode{
 		newSimpleDocumentNode(document, TagIndividual, "", pointer, children...),
-		false, false, nil, nil, nil, sync.Mutex{},
+		false, false, nil, nil, nil, sync.Mutex{}, 0,
 	}
 }
 
@@ -89,6 +93,7 @@ func (node *IndividualNode) Spouses() (spouses IndividualNodes) {
 
 	node.cacheMutex.Lock()
 	defer node.cacheMutex.Unlock()
+	node.dropOutdatedCache()
 
 	if node.cachedSpouses {
 		return node.spouses
@@ -133,6 +138,7 @@ func (node *IndividualNode) Families() (families FamilyNodes) {
 
 	node.cacheMutex.Lock()
 	defer node.cacheMutex.Unlock()
+	node.dropOutdatedCache()
 
 	if node.cachedFamilies {
 		return node.families
@@ -867,6 +873,7 @@ func (node *IndividualNode) UniqueIDs() (nodes []*UniqueIDNode) {
 func (node *IndividualNode) UniqueIdentifiers() *StringSet {
 	node.cacheMutex.Lock()
 	defer node.cacheMutex.Unlock()
+	node.dropOutdatedCache()
 
 	if node.cachedUniqueIDs == nil {
 		// The set is only published once it is complete.
@@ -886,6 +893,15 @@ func (node *IndividualNode) UniqueIdentifiers() *StringSet {
 	}
 
 	return node.cachedUniqueIDs
+}
+
+// dropOutdatedCache forgets everything that was derived from the nodes if
+// anything has changed since. The caller holds cacheMutex.
+func (node *IndividualNode) dropOutdatedCache() {
+	if epoch := currentEditEpoch(); node.cacheEpoch != epoch {
+		node.resetCache()
+		node.cacheEpoch = epoch
+	}
 }
 
 func (node *IndividualNode) resetCache() {
